@@ -12,6 +12,7 @@
 #include <map>
 #include <set>
 #include <unistd.h>
+#include <fcntl.h>
 
 EvLog g_logs[SA_MAX_TASKS + 1];
 bool g_task_mode = false;
@@ -267,16 +268,18 @@ int main(int argc, char** argv) {
   if (cmd == "run" && argc >= 7) {
     std::string prop = argv[2]; uint64_t seed = strtoull(argv[3], nullptr, 10), from = strtoull(argv[4], nullptr, 10), to = strtoull(argv[5], nullptr, 10);
     g_run.tier = argv[6];
-    const char* hashes_path = nullptr; const char* digests_path = nullptr; unsigned want_samples = 2;
+    const char* hashes_path = nullptr; const char* digests_path = nullptr; unsigned want_samples = 2; int inflight_fd = -1;
     for (int i = 7; i + 1 < argc; i += 2) {
       if (!strcmp(argv[i], "--hashes")) hashes_path = argv[i + 1];
       else if (!strcmp(argv[i], "--digests")) digests_path = argv[i + 1];
       else if (!strcmp(argv[i], "--samples")) want_samples = (unsigned)atoi(argv[i + 1]);
+      else if (!strcmp(argv[i], "--inflight-file")) inflight_fd = open(argv[i + 1], O_WRONLY | O_CREAT | O_TRUNC, 0644);
     }
     std::vector<uint64_t> hashes; std::vector<uint64_t> digests; J samples = J::arr();
     uint64_t runs = 0, nontriv = 0, viols = 0, digest_chain = 0, sim_time = 0;
     for (uint64_t idx = from; idx < to; idx++) {
       g_inflight = idx;
+      if (inflight_fd >= 0) { char b[32]; int n = snprintf(b, sizeof b, "%-20llu\n", (unsigned long long)idx); ssize_t w = pwrite(inflight_fd, b, (size_t)n, 0); (void)w; }
       J plan = make_plan(prop, seed, idx, g_run.tier);
       exec_plan(plan);
       runs++; digest_chain = hash_comb(digest_chain, g_log.digest); sim_time += g_run.sim_time;
